@@ -283,3 +283,60 @@ contract('parso.python.tree.PythonLeaf.get_start_pos_of_prefix', params={'self':
                   "(" + ZW + " and lo(p) != lo(root(self)) and exists(lambda q: q is not None and is_leaf(q) and hi(q) == lo(p) - 1 "
                   "and root(q) is root(self) and result == epos(q), kinds=dict(q='ref:NodeOrLeaf')))), kinds=dict(p='ref:NodeOrLeaf')))"],
          **POS)
+
+
+# ------------------------------------------------------------------------------ position lookup (C11)
+# ghost fge(n, p): the leaf the lookup of position p descends to from n: n itself for a leaf; for an interior node the
+# fge of its first child whose end is at or after p.  With end positions non-decreasing in leaf order (C03) this is
+# the first leaf in source order whose end is at or after p.
+_fge = F('fge', I, I, I, I)
+
+
+@theory('lookup')
+def lookup_axioms(eng, st):
+    n, i, j, p0, p1 = z3.Ints('n i j p0 p1')
+    ax = []
+    inner = z3.And(n != 0, z3.Not(_isleaf(n)))
+    ci, cj = _child(st, n, i), _child(st, n, j)
+
+    def le(a0, a1, b0, b1):        # (a0, a1) <= (b0, b1)
+        return z3.Or(a0 < b0, z3.And(a0 == b0, a1 <= b1))
+    # children end positions are non-decreasing
+    ax.append(z3.ForAll([n, i, j], z3.Implies(z3.And(inner, 0 <= i, i < j, j < _nch(st, n)),
+                                              le(_ep0(ci), _ep1(ci), _ep0(cj), _ep1(cj))),
+                        patterns=[z3.MultiPattern(ci, cj)]))
+    ax.append(z3.ForAll([n, p0, p1], z3.Implies(z3.And(n != 0, _isleaf(n)), _fge(n, p0, p1) == n), patterns=[_fge(n, p0, p1)]))
+    prev = _child(st, n, i - 1)
+    ax.append(z3.ForAll([n, i, p0, p1], z3.Implies(
+        z3.And(inner, 0 <= i, i < _nch(st, n), le(p0, p1, _ep0(ci), _ep1(ci)),
+               z3.Or(i == 0, z3.Not(le(p0, p1, _ep0(prev), _ep1(prev))))),
+        _fge(n, p0, p1) == _fge(ci, p0, p1)), patterns=[z3.MultiPattern(ci, _fge(n, p0, p1))]))
+    # start positions are non-decreasing in leaf order as well (C03): a node starts no later than any leaf below it
+    f = _fge(n, p0, p1)
+    ax.append(z3.ForAll([n, p0, p1], z3.Implies(n != 0, z3.And(f != 0, _isleaf(f), le(_sp0(n), _sp1(n), _sp0(f), _sp1(f)))),
+                        patterns=[_fge(n, p0, p1)]))
+    return ax
+
+
+@specfn('fge')
+def sp_fge(eng, st, n, pos):
+    return VRef(_fge(n.t, pos.items[0].t, pos.items[1].t), 'NodeOrLeaf')
+
+
+LK = dict(theories=['tree', 'treepos', 'lookup'], props=['C11'])
+FOUND = ['implies(result is None, not include_prefixes and position < spos(fge(self, position)))',
+         'implies(result is not None, result is fge(self, position))',
+         # a position inside the prefix of that leaf gives nothing when prefixes are excluded
+         'implies(not include_prefixes and position < spos(fge(self, position)), result is None)']
+contract('parso.tree.BaseNode.get_leaf_for_position',
+         params={'self': 'ref:BaseNode', 'position': 'pos', 'include_prefixes': 'bool'}, returns='ref:NodeOrLeaf',
+         ensures=FOUND, raises=['ValueError'],
+         exc_ensures={'ValueError': 'not ((1, 0) <= position and position <= epos(self))'},
+         decreases='height(self)', **LK)
+contract('parso.tree.BaseNode.get_leaf_for_position.binary_search',
+         params={'lower': 'int', 'upper': 'int'}, returns='ref:NodeOrLeaf', closure_of='parso.tree.BaseNode.get_leaf_for_position',
+         free={'self': 'ref:BaseNode', 'position': 'pos', 'include_prefixes': 'bool'},
+         requires=['self is not None', '0 <= lower and lower <= upper and upper < nch(self)', '(1, 0) <= position',
+                   'position <= epos(child(self, upper))',
+                   'lower == 0 or not (position <= epos(child(self, lower - 1)))'],
+         ensures=FOUND, decreases='upper - lower', **LK)
